@@ -452,6 +452,26 @@ pub fn run_session(ctx: &mut Ctx, t: &mut Tape, mode: Mode) {
                         }
                         tiny || old_x.leaves().chain(inc_x.leaves()).any(|n| bounds.iter().any(|b| n.start < *b && *b < n.end))
                     };
+                    // byte i lies in a token that is the same leaf (kind, extent) in both trees and lies outside the
+                    // difference between the old and new included ranges, but touches that difference: only its ancestors
+                    // changed (the statement in front of it was excluded or included)
+                    let unchanged_leaf_next_to_range_difference = |i: usize| -> bool {
+                        let old_r: Vec<(usize, usize)> = old.included_ranges().iter().map(|r| (r.start_byte, r.end_byte)).collect();
+                        let new_r: Vec<(usize, usize)> = match &cur_ranges {
+                            Some(rs) => rs.iter().map(|r| (r.start_byte, r.end_byte)).collect(),
+                            None => vec![(0, usize::MAX)],
+                        };
+                        let inside = |rs: &Vec<(usize, usize)>, j: usize| rs.iter().any(|(a, b)| *a <= j && j < *b);
+                        let diff = |j: usize| inside(&old_r, j) != inside(&new_r, j);
+                        let ln = inc_x.leaves().find(|n| n.start <= i && i < n.end);
+                        let lo = old_x.leaves().find(|n| n.start <= i && i < n.end);
+                        match (ln, lo) {
+                            (Some(a), Some(b)) => {
+                                a.kind_id == b.kind_id && a.start == b.start && a.end == b.end && !(a.start..a.end).any(|j| diff(j)) && ((a.start > 0 && diff(a.start - 1)) || diff(a.end))
+                            }
+                            _ => false,
+                        }
+                    };
                     let so = stack_sigs(&old_x, len);
                     let sn = stack_sigs(&inc_x, len);
                     let mut differing = 0usize;
@@ -492,6 +512,8 @@ pub fn run_session(ctx: &mut Ctx, t: &mut Tape, mode: Mode) {
                                     "whitespace"
                                 } else if (ranges_changed || ranges_differ) && range_cuts_token {
                                     "token_with_changed_included_ranges"
+                                } else if (ranges_changed || ranges_differ) && unchanged_leaf_next_to_range_difference(i) {
+                                    "unchanged_token_next_to_included_range_difference"
                                 } else {
                                     "token"
                                 };
